@@ -1,7 +1,7 @@
 (* C06 — Failures are fs.errors exceptions for a real cause and change nothing (MemoryFS model, calls in [covered]; the reference's admissible classes encode 'the documented condition holds'). *)
 From Coq Require Import List NArith ZArith Bool Arith.
 From PyFS Require Import Base.PyStr Base.Outcome Path.PathModel Path.PathSpec FS.Tree FS.Monad FS.Mode FS.Base
-     FS.Mem FS.Ops FS.Ref FS.Agree FS.Props FS.Wf FS.PropsProofs.
+     FS.Mem FS.Ops FS.Ref FS.Agree FS.Props FS.Wf FS.RefineWalkLemmasBfs FS.PropsProofs FS.PropsWalk.
 Import ListNotations.
 
 Theorem C06_mem_no_foreign_exception : forall o s k,
@@ -41,3 +41,205 @@ Theorem C06_mem_crashed_call_is_noop : forall o s k,
   tree_eqb true (fst (mem_run o s)) s = true.
 Proof. exact mem_crashed_call_is_noop. Qed.
 Print Assumptions C06_mem_crashed_call_is_noop.
+
+(* ---- the walker-based calls makedirs / copydir / movedir (corollaries of the refinement, FS/PropsWalk.v):
+   walk_pre = resolvable paths and non-degenerate source/destination; merge_conflict = a file/directory clash met
+   while merging into an existing destination (the one failure that may leave part of the merge behind) ---- *)
+
+Theorem C06_walk_refines :
+  forall (o : op) (s : node),
+       wf s -> nn s -> walk_pre o s = true -> agree (mem_run o s) (ref_run o s) = true.
+Proof. exact @walk_refines. Qed.
+Print Assumptions C06_walk_refines.
+
+Theorem C06_walk_no_foreign_exception :
+  forall (o : op) (s : node) (k : Outcome.crash),
+       wf s ->
+       nn s ->
+       walk_pre o s = true ->
+       snd (mem_run o s) = Crash k -> k = ValueError /\ rs_res (ref_run o s) = RValueError.
+Proof. exact @walk_no_foreign_exception. Qed.
+Print Assumptions C06_walk_no_foreign_exception.
+
+Theorem C06_walk_never_crashes :
+  forall (o : op) (s : node) (k : Outcome.crash),
+       wf s ->
+       nn s -> walk_op o = true -> walk_pre o s = true -> snd (mem_run o s) = Crash k -> False.
+Proof. exact @walk_never_crashes. Qed.
+Print Assumptions C06_walk_never_crashes.
+
+Theorem C06_walk_error_admissible :
+  forall (o : op) (s : node) (e : ecls),
+       wf s ->
+       nn s ->
+       walk_pre o s = true ->
+       snd (mem_run o s) = Err e ->
+       exists adm : list ecls, rs_res (ref_run o s) = RFail adm /\ In e adm.
+Proof. exact @walk_error_admissible. Qed.
+Print Assumptions C06_walk_error_admissible.
+
+Theorem C06_walk_rejected_is_noop :
+  forall (o : op) (s : node) (adm : list ecls),
+       wf s ->
+       nn s ->
+       walk_pre o s = true ->
+       rs_res (ref_run o s) = RFail adm ->
+       rs_tree (ref_run o s) = Some s -> tree_eqb true (fst (mem_run o s)) s = true.
+Proof. exact @walk_rejected_is_noop. Qed.
+Print Assumptions C06_walk_rejected_is_noop.
+
+Theorem C06_walk_rejected_fails :
+  forall (o : op) (s : node) (adm : list ecls),
+       wf s ->
+       nn s ->
+       walk_pre o s = true ->
+       rs_res (ref_run o s) = RFail adm -> exists e : ecls, snd (mem_run o s) = Err e /\ In e adm.
+Proof. exact @walk_rejected_fails. Qed.
+Print Assumptions C06_walk_rejected_fails.
+
+Theorem C06_walk_argcheck_rejected :
+  forall (o : op) (s : node),
+       wf s ->
+       nn s ->
+       walk_pre o s = true ->
+       walk_arg_errors o s <> [] ->
+       (exists e : ecls, snd (mem_run o s) = Err e /\ In e (walk_arg_errors o s)) /\
+       tree_eqb true (fst (mem_run o s)) s = true.
+Proof. exact @walk_argcheck_rejected. Qed.
+Print Assumptions C06_walk_argcheck_rejected.
+
+Theorem C06_walk_failed_call_is_noop :
+  forall (o : op) (s : node) (e : ecls),
+       wf s ->
+       nn s ->
+       walk_pre o s = true ->
+       snd (mem_run o s) = Err e ->
+       merge_conflict o s = false -> tree_eqb true (fst (mem_run o s)) s = true.
+Proof. exact @walk_failed_call_is_noop. Qed.
+Print Assumptions C06_walk_failed_call_is_noop.
+
+Theorem C06_walk_error_cause :
+  forall (o : op) (s : node) (e : ecls),
+       wf s ->
+       nn s ->
+       walk_op o = true ->
+       walk_pre o s = true ->
+       snd (mem_run o s) = Err e ->
+       In e (walk_arg_errors o s) /\
+       merge_conflict o s = false /\ tree_eqb true (fst (mem_run o s)) s = true \/
+       In e conflict_classes /\ merge_conflict o s = true /\ walk_arg_errors o s = [].
+Proof. exact @walk_error_cause. Qed.
+Print Assumptions C06_walk_error_cause.
+
+Theorem C06_walk_crashed_call_is_noop :
+  forall (o : op) (s : node) (k : Outcome.crash),
+       wf s ->
+       nn s ->
+       walk_pre o s = true ->
+       snd (mem_run o s) = Crash k -> tree_eqb true (fst (mem_run o s)) s = true.
+Proof. exact @walk_crashed_call_is_noop. Qed.
+Print Assumptions C06_walk_crashed_call_is_noop.
+
+Theorem C06_makedirs_failed_is_noop :
+  forall (p : str) (r : bool) (s : node) (cs : list str) (e : ecls),
+       wf s ->
+       rpath p = inl cs ->
+       snd (mem_run (OMakedirs p r) s) = Err e ->
+       fst (mem_run (OMakedirs p r) s) = s /\
+       (prefix_is_file s [] cs = true /\ e = DirectoryExpected \/
+        prefix_is_file s [] cs = false /\
+        status_of s cs = IsDir /\ r = false /\ e = DirectoryExists).
+Proof. exact @makedirs_failed_is_noop. Qed.
+Print Assumptions C06_makedirs_failed_is_noop.
+
+Theorem C06_walk_ref_fail_cases :
+  forall (o : op) (s : node) (adm : list ecls),
+       walk_op o = true ->
+       rs_res (ref_run o s) = RFail adm ->
+       rs_tree (ref_run o s) = Some s /\
+       adm = walk_arg_errors o s /\ adm <> [] /\ merge_conflict o s = false \/
+       rs_tree (ref_run o s) = None /\
+       adm = conflict_classes /\ walk_arg_errors o s = [] /\ merge_conflict o s = true.
+Proof. exact @walk_ref_fail_cases. Qed.
+Print Assumptions C06_walk_ref_fail_cases.
+
+Theorem C06_walk_ref_fail_tree_iff :
+  forall (o : op) (s : node) (adm : list ecls),
+       walk_op o = true ->
+       rs_res (ref_run o s) = RFail adm ->
+       rs_tree (ref_run o s) = Some s <-> merge_conflict o s = false.
+Proof. exact @walk_ref_fail_tree_iff. Qed.
+Print Assumptions C06_walk_ref_fail_tree_iff.
+
+Theorem C06_ref_any_iff_degenerate :
+  forall (o : op) (s : node), rs_res (ref_run o s) = RAny <-> degenerate o s = true.
+Proof. exact @ref_any_iff_degenerate. Qed.
+Print Assumptions C06_ref_any_iff_degenerate.
+
+Theorem C06_walk_ref_not_any :
+  forall (o : op) (s : node), walk_pre o s = true -> rs_res (ref_run o s) <> RAny.
+Proof. exact @walk_ref_not_any. Qed.
+Print Assumptions C06_walk_ref_not_any.
+
+Theorem C06_copydir_argument_checks :
+  forall (src dst : str) (c pt : bool) (s : node) (a b : list str),
+       rpath src = inl a ->
+       rpath dst = inl b ->
+       let r := ref_run (OCopydir src dst c pt) s in
+       (list_prefix a b = true -> rejects r s IllegalDestination) /\
+       (lookup s a = None -> rejects r s ResourceNotFound) /\
+       (forall (d : bytes) (m : option Z),
+        lookup s a = Some (File d m) -> rejects r s DirectoryExpected) /\
+       (forall (d : bytes) (m : option Z),
+        lookup s b = Some (File d m) ->
+        rejects r s DirectoryExpected /\ rejects r s DirectoryExists) /\
+       (lookup s b = None -> c = false -> rejects r s ResourceNotFound) /\
+       (lookup s b = None -> prefix_is_file s [] b = true -> rejects r s DirectoryExpected).
+Proof. exact @copydir_argument_checks. Qed.
+Print Assumptions C06_copydir_argument_checks.
+
+Theorem C06_movedir_argument_checks :
+  forall (src dst : str) (c pt : bool) (s : node) (a b : list str),
+       rpath src = inl a ->
+       rpath dst = inl b ->
+       a <> b ->
+       let r := ref_run (OMovedir src dst c pt) s in
+       (list_prefix a b = true -> rejects r s IllegalDestination) /\
+       (lookup s a = None -> rejects r s ResourceNotFound) /\
+       (forall (d : bytes) (m : option Z),
+        lookup s a = Some (File d m) -> rejects r s DirectoryExpected) /\
+       (forall (d : bytes) (m : option Z),
+        lookup s b = Some (File d m) ->
+        rejects r s DirectoryExpected /\ rejects r s DirectoryExists) /\
+       (lookup s b = None -> c = false -> rejects r s ResourceNotFound) /\
+       (lookup s b = None ->
+        b <> [] -> status_of s (parent b) <> IsDir -> rejects r s ResourceNotFound).
+Proof. exact @movedir_argument_checks. Qed.
+Print Assumptions C06_movedir_argument_checks.
+
+Theorem C06_makedirs_argument_checks :
+  forall (p : str) (r : bool) (s : node) (cs : list str),
+       rpath p = inl cs ->
+       let st := ref_run (OMakedirs p r) s in
+       (prefix_is_file s [] cs = true -> rejects st s DirectoryExpected) /\
+       (prefix_is_file s [] cs = false ->
+        status_of s cs = IsDir -> r = false -> rejects st s DirectoryExists).
+Proof. exact @makedirs_argument_checks. Qed.
+Print Assumptions C06_makedirs_argument_checks.
+
+Theorem C06_walk_invalid_path_rejected :
+  forall (o : op) (s : node),
+       walk_op o = true ->
+       match o with
+       | OMakedirs p _ => exists e : list ecls, rpath p = inr e
+       | OMovedir src dst _ _ | OCopydir src dst _ _ =>
+           (exists e : list ecls, rpath src = inr e) \/ (exists e : list ecls, rpath dst = inr e)
+       | _ => False
+       end ->
+       rs_tree (ref_run o s) = Some s /\
+       (exists adm : list ecls,
+          rs_res (ref_run o s) = RFail adm /\
+          adm <> [] /\
+          (forall e : ecls, In e adm -> e = InvalidCharsInPath \/ e = IllegalBackReference)).
+Proof. exact @walk_invalid_path_rejected. Qed.
+Print Assumptions C06_walk_invalid_path_rejected.
